@@ -335,3 +335,50 @@ Proof. vm_compute. split; reflexivity. Qed.
 
 Example ex_super_refuses : super_init 12288 0 1 = Err c_SQFS_ERROR_SUPER_BLOCK_SIZE.
 Proof. reflexivity. Qed.
+
+(* ------------------------------------------------------------------------------------------ *)
+(* composition: the listings sqfs_serialize_fstree writes (lib/common/src/writer/serialize_fstree.c) *)
+(* ------------------------------------------------------------------------------------------ *)
+(* Model coq/Img/TreeModel.v (built from the models above and C01's inode models); domain: the boolean predicates
+   representable (tree) and trace_fits (run: tables below 4 GiB, fewer than 65536 headers per directory). *)
+From SqfsV Require C01.Res C01.InodeModel C01.InodeProofs.
+From SqfsV Require Import Img.TreeModel Img.DirWF.
+From SqfsV Require Img.Example Img.ZrleProofs.
+
+(* for every directory of every tree: the directory inode that was written locates (start block, offset, size - 3) a
+   byte range of the directory table that is exactly the listing of the directory's entries; the listing parses into
+   header runs of 1 .. SQFS_MAX_DIR_ENT entries that share the inode block of the run's first entry and whose inode
+   number deltas fit 16 bits (run_ok, see dir_runs_ok); names are strictly sorted; and every entry's
+   (start_block << 16 | offset, inode number, type) points at the inode written for the node the entry names:
+   the reference resolves to that inode, whose inode number and type are the entry's *)
+Theorem serialized_dirs_wellformed : forall compress uncompress, contract compress uncompress ->
+  forall limit, limit <= 65536 ->
+  forall bs t img,
+  representable bs t = true -> serialize_fstree compress limit t = Res.Ok img -> trace_fits img = true ->
+  forall j n par ch i,
+    nth_error t j = Some n -> fn_payload n = PDir par ch -> nth_error (si_inodes img) j = Some i ->
+    exists sb off s ents,
+      dir_loc (InodeModel.i_body i) = Some (sb, off, s + 3) /\
+      meta_read uncompress (length (si_dtbl img)) (si_dtbl img) sb off s = Some (listing off ents) /\
+      lenN (listing off ents) = s /\
+      (let hs := hdrs_of (length ents) off 0 ents in
+       parse_listing (length ents) 0 (listing off ents) = Some (map mk_rhdr hs) /\
+       concat (map snd hs) = ents /\ Forall (fun h => run_ok (snd h)) hs) /\
+      sorted_names (map de_name ents) = true /\
+      Forall2 (entry_points_at uncompress bs img) ch ents.
+Proof. exact dirs_wellformed_l. Qed.
+Print Assumptions serialized_dirs_wellformed.
+
+(* non-vacuity: the hypotheses hold of the 96 inode example tree of Img/Example.v with the zero-run-length compressor *)
+Example ex_serialized_dirs_hyps :
+  contract (img_compress 3) (img_uncompress 3) /\ representable 4096 Example.ex_tree = true /\
+  match serialize_fstree (img_compress 3) GenC01.c_id_table_limit Example.ex_tree with
+  | Res.Ok img => trace_fits img = true
+  | _ => False
+  end.
+Proof.
+  split; [exact (ZrleProofs.img_contract 3 (or_intror eq_refl))|].
+  split; [exact Example.ex_tree_representable|].
+  pose proof Example.ex_tree_roundtrip as H. unfold Example.ex_img in H.
+  destruct (serialize_fstree (img_compress 3) GenC01.c_id_table_limit Example.ex_tree); try exact H. apply H.
+Qed.
